@@ -298,7 +298,8 @@ def gen_chain(rng):
     """-> (module text, expected result stream, label)"""
     depth = rng.choice([1, 2, 2, 3, 3, 3])
     hdr = ("from guppylang import guppy\nfrom guppylang.std.builtins import result, comptime, nat, array\n\n"
-           'T = guppy.type_var("T")\nV = guppy.type_var("V")\nW = guppy.type_var("W")\n\n')
+           'T = guppy.type_var("T")\nV = guppy.type_var("V")\nW = guppy.type_var("W")\n\n'
+           "@guppy.struct\nclass PairS:\n    a: int\n    b: int\n\n")
     # nat is the one type whose comptime values become HUGR bounded-nat parameters: weight it up
     carry_ty = rng.choice(["int", "bool", "float", "nat", "nat", "nat"])
     carry_val = rng.choice(CARRY_VALS[carry_ty])
@@ -381,6 +382,13 @@ def gen_chain(rng):
                 terms.append(f"{c_} * int({n_})")
         expr = " + ".join(terms) if terms else "0"
         body = []
+        if rng.random() < 0.3:
+            # a struct constructor / builtin used as a first-class value inside a partially
+            # monomorphised function, *before* its kept parameters are referred to
+            body.append("    mk = PairS")
+            body.append(f"    pq = mk({3 + i}, 4)")
+            expr = f"(pq.a - {3 + i}) + " + expr
+            f["ctor_value"] = True
         if i + 1 < depth:
             nxt = fns[i + 1]
             amap = dict(zip([n_ for _, n_ in nxt["extras"]], call_args[i]))
@@ -404,9 +412,33 @@ def gen_chain(rng):
     main.append(f"    a, c = f0({', '.join(amap[o] for o in fns[0]['order'])})")
     main.append('    result("a", a)')
     main.append('    result("c", c)')
-    text.append("\n".join(main) + "\n")
     cexp = {"int": int, "bool": lambda v: v == "True", "float": float, "nat": int}[carry_ty](carry_val)
-    return "".join(text), [("a", accs[0]), ("c", cexp)], (depth, carry_ty, carry_comptime, tuple(label))
+    exp = [("a", accs[0]), ("c", cexp)]
+
+    def evaluate(top):
+        vals = [dict() for _ in range(depth)]
+        vals[0] = dict(top)
+        for i_ in range(depth - 1):
+            for (e_kind, e_name), src in zip(fns[i_ + 1]["extras"], call_args[i_]):
+                vals[i_ + 1][e_name] = vals[i_][src] if src in vals[i_] else src
+        acc = 0
+        for i_ in reversed(range(depth)):
+            own = sum(fns[i_]["coef"][n_] * ival(k_, vals[i_][n_]) for k_, n_ in fns[i_]["extras"])
+            acc = own + 100 * acc
+        return acc
+
+    assert evaluate(values[0]) == accs[0]
+    # further calls of f0 with other values: several monomorphisations of the whole chain in one
+    # compile (the checked AST of each function is shared between them)
+    for j in range(rng.randint(0, 2)):
+        top = {n_: lit(k_) for k_, n_ in fns[0]["extras"]}
+        am = dict(top)
+        am["c"] = amap["c"]
+        main.append(f"    a{j}, c{j} = f0({', '.join(am[o] for o in fns[0]['order'])})")
+        main.append(f'    result("a{j}", a{j})')
+        exp.append((f"a{j}", evaluate(top)))
+    text.append("\n".join(main) + "\n")
+    return "".join(text), exp, (depth, carry_ty, carry_comptime, tuple(label))
 
 
 def run_chain(ctx, rng):
